@@ -3,8 +3,8 @@ import regcommon as rc
 import vlib
 
 STRICT = {'K1_DeclaredTypeGoverns': False, 'F12_PushBlobUncoded': False}
-STACKS_Q = 'http(mem);http(small:2(mem));debug(http(debug(mem)));http:omitdigest+nolink+page2(http(mem));http:nosingle+page1+max3(mem)'
-STACKS_T = STACKS_Q + ';http:page3+nolink(mem);http:omitdigest(mem);http(debug(http:nosingle(mem)));http:page2+max2(http:page1(mem))'
+STACKS_Q = 'http(mem);http:redir(mem);http(small:2(mem));debug(http(debug(mem)));http:omitdigest+nolink+page2(http(mem));http:nosingle+page1+max3(mem)'
+STACKS_T = STACKS_Q + ';http:redir(mem);http(http:redir+omitdigest(mem));http:page3+nolink(mem);http:omitdigest(mem);http(debug(http:nosingle(mem)));http:page2+max2(http:page1(mem))'
 
 
 def run(ctx):
